@@ -73,7 +73,9 @@ Base3 == RunOps(Fresh, Ops3, 1)
 Base4 == ResetEffect(Base2)
 Base5 == ResetEffect(Base3)
 \* the two timers the other way round (timer 1 about to expire, timer 0 about to borrow)
-Base6 == RunOps(Fresh, << W(\h34, 1), W(\h36, 0), W(\h30, \h060C), W(\h24, 0), W(\h26, 1), W(\h20, \h060C) >>, 1)
+\* ... and a semaphore that is pending but fully masked (unmasking it must raise IRQ 14)
+Base6 == RunOps(Fresh, << W(\h34, 1), W(\h36, 0), W(\h30, \h060C), W(\h24, 0), W(\h26, 1), W(\h20, \h060C),
+                          W(\hCE, \hFFFF), <<"HSem", 0, \h0101>> >>, 1)
 Base7 == ResetEffect(Base6)
 BaseOf(i) == CASE i = 1 -> Fresh [] i = 2 -> Base2 [] i = 3 -> Base3 [] i = 4 -> Base4 [] i = 5 -> Base5
                [] i = 6 -> Base6 [] i = 7 -> Base7
@@ -104,6 +106,9 @@ HiddenFrame        == Chosen => HiddenFrameAt(S0, woff, wval)
 ReadPurity         == wval = 0 => ReadPurityAt(S0, woff)
 PathsAgree         == wval = \hFFFF => PathsAgreeAt(S0, woff)
 ChannelIndependent == (Chosen /\ woff \in WindowOffs) => ChannelIndependentAt(S0, woff, wval, FALSE, ChanSet)
+\* any value written to the channel select leaves a usable window (pinned code before the 3-bit fix:
+\* MC_Mmio_pinned_chsel.cfg)
+WindowReachable    == (Chosen /\ woff = \h1BE) => WindowReachableAt(S0, wval)
 \* strict forms: violated by the pinned code (MC_Mmio_pinned*.cfg), hold with the Fixed* constants
 ChannelIndependentStrict == (Chosen /\ woff \in WindowOffs) => ChannelIndependentAt(S0, woff, wval, TRUE, ChanSet)
 \* CM = 7 is not a documented count mode; 4..6 are (watchdog modes)
@@ -125,6 +130,7 @@ ASSUME /\ \A i \in 1..7 : Keys \subseteq DOMAIN BaseOf(i) /\ \A k \in DOMAIN Bas
        /\ Base2[ActiveK] = 3 /\ Base2[TK(0, "cnt_lo")] = 1 /\ Base2[TK(0, "ctr_low")] = 1 /\ Base2[TK(1, "cnt_lo")] = 2
        /\ Base2[K("bt", 0, "qlen")] = 3 /\ Base2[FC("ready0")] = 1 /\ Base2[FC("signal")] = 1
        /\ Base3[ActiveK] = 7 /\ Base3[TK(1, "cnt_hi")] = 1 /\ Base3[TK(0, "cnt_lo")] = 0
+       /\ Base6[FC("signal")] = 0 /\ Base6[FC("sem")] = \h0101 /\ Read(Base6, \h200) = 0
        /\ Base3[K("bt", 0, "full")] = 1 /\ Base3[K("bt", 1, "qlen")] = 2 /\ Base3[FC("dis1")] = 1
        /\ Read(Base3, \h200) = (Read(Base3, \h200) | \h4000)
 \* every coupling that is claimed is real (the relation is tight): some base and value shows it
@@ -133,6 +139,6 @@ CoupledTight ==
            Read(Write(BaseOf(i), p[1], x).s, p[2]) # Read(BaseOf(i), p[2])
     /\ \A p \in ReadCoupled : \E i \in 1..3 : Read(ReadEffect(BaseOf(i), p[1]), p[2]) # Read(BaseOf(i), p[2])
 ASSUME CoupledTight
-\* what Teakra::Reset leaves behind (reported for C17): all backing words, the ICU, CIx
-ASSUME \A k \in SurvivesReset : k[1] \in { "cell", "icu" } \/ (k[1] = "apbp" /\ k[3] \in { "dis0", "dis1", "dis2" })
+\* what Teakra::Reset leaves behind (the C17 known finding): the backing words of MMIORegion, nothing else
+ASSUME \A k \in SurvivesReset : k[1] = "cell"
 =============================================================================
